@@ -26,6 +26,10 @@ CLAIMED = {
          "Proof: C19_synth_structurally_valid, C19_parse_synth_enum_fields (symbolic, custom parts included), C19_parse_synth_named_enums, C19_gamma_field_roundtrip, C19_same_encoding_is_noop and the real-number inverse/monotone theorems for gamma, DCI, BT.709 (full), sRGB (all but a 1e-8 sliver; the sliver and the non-monotone breakpoints are proved false on the standard's constants), PQ (inverse, encode monotone), HLG (piecewise, _partial). Partial: every claim about the f32 kernels (round-trip tolerance per curve, monotone on grids, scalar vs vector lanes) and about the f32 chromaticity arithmetic (custom xy within 1e-4) is measured by the correspondence run, not proved; the latter is false outside a well-conditioned domain (known finding).",
          "Trusted: Lean kernel, axioms propext/Classical.choice/Quot.sound, Mathlib single modules, the correspondence harness, the machine's IEEE-754 arithmetic and libm (PQ/HLG tables compared within one unit). Tolerances: 1e-5 relative + 2e-7 for power-law/sRGB/HLG, 1e-4 relative + 1e-6*(10000/intensity_target) for PQ. Domain of the gamma round trip: validated header range 1221..1e7. Requires the fix-F5-* and fix-C19-* patches in /repo; unrepaired defects are listed in known_findings.json.",
          "DESIGN.md §4 C19, §8 F5"),
+ "C17": ("Lean 4 model of jxl-jbr's JPEG bit writer (64-bit accumulator, flush rule, 0xFF byte stuffing with the SWAR has_ff_byte test, padding, finalize), of HuffmanCode::build/lookup and of the jpeg_reconstruction_status decision; theorems over every write sequence / every 64-bit word / every Kraft-respecting counts table / every combination of status facts; differential correspondence of the model with the real code through hook H6 and of hostile, truncated and chunked jbrd boxes through the public JxlImage API",
+         "Partial. Proof (Lean, all inputs): finalize of any write sequence = concatenate MSB-first, zero-pad, pack big-endian, stuff 0x00 after 0xFF (C17_bitwriter_refines, + no panic for lengths <= 63, + padding_bits); has_ff_byte exact for all 2^64 words; HuffmanCode::build on every valid table yields the canonical JPEG code, which is prefix-free and never all-ones; the status answer is 'available' exactly when the jbrd box is complete and length-checked, all requested ICC/Exif/XMP data has arrived and one normal VarDCT frame is loaded; expected_*_len cannot underflow on headers the repaired parser accepts. Testing (seeded, every run): model vs real BitWriter/has_ff_byte/HuffmanCode::build via hook H6; crafted hostile/truncated jbrd containers fed in chunks through JxlImage - any panic or an 'available' answer while the box/frame is incomplete is a concrete violation. NOT exercised by proof or test: end-to-end 'reconstructed file == original JPEG' (no JPEG->JPEG XL transcoder and no transcoded fixtures exist offline); VarDCT coefficient extraction, integer chroma-from-luma, marker replay and the scan re-encoder are not modelled.",
+         "Trusted: Lean kernel, axioms propext/Classical.choice/Quot.sound, the correspondence harness and its generators, hook H6 (add-only accessors in jxl-jbr). Preconditions: write_huffman gets a left-aligned code with nothing below its top len bits, len <= 64 (64 into an empty accumulator panics in a checked build; the scan encoder stays <= 63); usize/u64 = 64 bit. The modelled status logic is the repaired one (fix-F4, fix-jbrd-status-incomplete, fix-status-frame-check). HuffmanCode::build panics on degenerate tables (<= 1 value, count for length 0): reachable only behind a valid VarDCT frame, so argued from the model and reproduced through H6 only.",
+         "DESIGN.md §4 C17, §8 F4"),
 }
 NOT_YET = "machinery for this property is not built yet in this snapshot (planned, see DESIGN.md §4/§10); it is claimed as soon as its theorems and correspondence check land"
 
